@@ -47,6 +47,8 @@ def fbits(f):
 
 def num_text(f):
     f = float(f)
+    if f == float('inf'):
+        return '1e400'      # a literal that rounds to infinity (reported when it is evaluated)
     if f == int(f) and abs(f) < 1e15:
         return str(int(f))
     return repr(f)
@@ -401,7 +403,7 @@ def to_sexp(e):
 
 NAMES = ['a', 'b', 'c', 'x', 'y', 'f', 'g', 'o', 'p', 'q']
 FIELDS = ['a', 'b', 'c', 'd', 'k1', 'k2']
-NUMS = [0, 1, 2, 3, 5, 7, 10, 0.5, 1.5, 100, 255, 1e3, 9007199254740991, 1e308, 5e-324, 2.5]
+NUMS = [0, 1, 2, 3, 5, 7, 10, 0.5, 1.5, 100, 255, 1e3, 9007199254740991, 1e308, 5e-324, 2.5, 0, 1, 2, 3, 5, 10, float('inf')]
 STRS = ['', 'a', 'b', 'ab', 'x y', 'é', '日本', '😀', 'k1', 'a"b', 'line\n']
 
 
@@ -804,7 +806,7 @@ def late_binding_cases(rng, n):
     S = lambda x: ('str', x)
     out = []
     for _ in range(n):
-        kind = rng.randrange(6)
+        kind = rng.randrange(9)
         v1, v2, v3 = rng.sample([1, 2, 3, 5, 7, 10], 3)
         f = rng.choice(['name', 'k1', 'a'])
         g = rng.choice(['greeting', 'g', 'b'])
@@ -856,7 +858,7 @@ def late_binding_cases(rng, n):
                                                        ('field', ('binary', 'add', V('a'), ('object', [('fix', 'x', False, 'd', None, N(v2))])), 'top'),
                                                        ('field', V('a'), 'top')]))
             out.append((prog, ('ok', [v1, v2, v1])))
-        else:
+        elif kind == 5:
             # object local and method depending on self, reused across two extensions
             a = ('object', [('local', 'l', None, ('binary', 'add', ('field', ('self',), 'x'), N(1))), ('fix', 'x', False, 'd', None, N(v1)),
                             ('fix', 'm', False, 'h', [('k', None)], ('binary', 'add', V('l'), V('k')))])
@@ -864,4 +866,30 @@ def late_binding_cases(rng, n):
                                                        ('call', ('field', ('objext', V('a'), [('fix', 'x', False, 'd', None, N(v2))]), 'm'), [('p', N(20))], False),
                                                        ('call', ('field', V('a'), 'm'), [('p', N(30))], False)]))
             out.append((prog, ('ok', [v1 + 11, v2 + 21, v1 + 31])))
+        elif kind == 6:
+            # `$` inside an object comprehension nested in an object is the OUTERMOST object (also when the
+            # comprehension itself has a field of that name), in the body, in its locals, in a method's default
+            key = rng.choice(['x', 'a', 'zz'])
+            comp = ('objcomp', [('l', None, ('binary', 'add', ('field', ('dollar',), 'x'), N(100)))], V('k'), False,
+                    ('array', [('field', ('dollar',), 'x'), V('l')]), [('for', 'k', ('array', [S(key)]))])
+            outer = ('object', [('fix', 'x', False, 'd', None, N(v1)), ('fix', 'inner', False, 'd', None, comp)])
+            ext = ('binary', 'add', V('o'), ('object', [('fix', 'x', False, 'd', None, N(v2))]))
+            prog = ('local', [('o', None, outer)], ('array', [('field', ('field', V('o'), 'inner'), key),
+                                                             ('field', ('field', ext, 'inner'), key),
+                                                             ('field', V('o'), 'x')]))
+            out.append((prog, ('ok', [[v1, v1 + 100], [v2, v2 + 100], v1])))
+        elif kind == 7:
+            # a top-level object comprehension IS its own `$`; a plain object nested in it sees the comprehension as `$`
+            comp = ('objcomp', [], V('k'), False,
+                    ('if', ('binary', 'eq', V('k'), S('x')), N(v1),
+                     ('object', [('fix', 'up', False, 'd', None, ('field', ('dollar',), 'x'))])),
+                    [('for', 'k', ('array', [S('x'), S('y')]))])
+            out.append((('field', ('field', comp, 'y'), 'up'), ('ok', v1)))
+        elif kind == 8:
+            # `self` / `super` inside a nested comprehension refer to the comprehension object and its own super
+            comp = ('objcomp', [], V('k'), False, ('array', [('field', ('self',), 'tag'), ('field', ('dollar',), 'tag')]),
+                    [('for', 'k', ('array', [S('v')]))])
+            inner = ('binary', 'add', comp, ('object', [('fix', 'tag', False, 'd', None, S('inner'))]))
+            outer = ('object', [('fix', 'tag', False, 'd', None, S('outer')), ('fix', 'c', False, 'd', None, inner)])
+            out.append((('field', ('field', outer, 'c'), 'v'), ('ok', ['inner', 'outer'])))
     return out
